@@ -140,3 +140,115 @@ def po10(facts, rep, rule='PO-10'):
             else:
                 rep.bad(rule, key, o['where'], 'undischarged %s obligation: %s' % (o['kind'], o['detail']))
     rep.floor(rule, 'obligations', total, 25)
+
+
+# ------------------------------------------------------------------------------------------------ LS-1 (C05, C06)
+def ls1(facts, rep, rule='LS-1'):
+    rep.rule(rule, 'extent of the `less` table (writer/reader agreement): the FM/FMD index reads less(a + c) for alphabet symbols '
+                   'a <= max_symbol and small constants c (c = 1 in FMDIndex::init_interval_with, which takes the interval size '
+                   'from less(a + 1) - less(a)); bwt::less must therefore allocate at least max_symbol + 1 + max(c) entries')
+    # reader side: constant offsets added to a symbol before it is looked up
+    cmax, nread = 0, 0
+    for b in facts.body_list:
+        if not b.path.startswith(('data_structures::fmindex::', '<data_structures::fmindex::')):
+            continue
+        for bb, t in b.calls():
+            info = call_info(t)
+            if not info or info['fn'].rsplit('::', 1)[-1] != 'less' or 'fmindex' not in info['fn'] or len(t['args']) != 2:
+                continue
+            nread += 1
+            p = poly(b.expr_operand(t['args'][1], inline_user=True))
+            c = p.get((), 0)
+            if isinstance(c, int) and c > cmax:
+                cmax = c
+    rep.floor(rule, 'less(..) look-ups in fmindex.rs', nread, 5)
+    w = facts.body('data_structures::bwt::less')
+    key = 'bwt::less|table-covers-max_symbol-plus-offsets'
+    if w is None:
+        rep.missing(rule, key, 'bwt::less not found')
+        return
+    rep.analysed_body(w)
+    sizes = []
+    for bb, t in w.calls():
+        info = call_info(t)
+        if not info:
+            continue
+        last = info['fn'].rsplit('::', 1)[-1]
+        arg = None
+        if last == 'take' and 'Iterator' in info['fn'] and len(t['args']) == 2:
+            arg = t['args'][1]
+        elif last == 'from_elem' and len(t['args']) >= 2:
+            arg = t['args'][1]
+        elif last == 'resize' and 'Vec' in info['fn'] and len(t['args']) == 3:
+            arg = t['args'][1]
+        if arg is not None:
+            sizes.append((bb, poly(w.expr_operand(arg, inline_user=True))))
+    sizes = [(bb, p) for bb, p in sizes if any('max_symbol' in a for m in p for a in m)]
+    if len(sizes) != 1:
+        rep.missing(rule, key, 'expected one allocation sized from Alphabet::max_symbol, found %d' % len(sizes))
+        return
+    bb, p = sizes[0]
+    sym = [m for m in p if m and any('max_symbol' in a for a in m)]
+    const = p.get((), 0)
+    if len(sym) == 1 and len(sym[0]) == 1 and p[sym[0]] == 1 and len(p) <= 2 and const >= cmax + 1:
+        rep.ok(rule, key, w.loc(bb), 'max_symbol + %d entries; largest look-up offset %d' % (const, cmax))
+    else:
+        rep.bad(rule, key, w.loc(bb), 'the table has `%s` entries, but the index reads less(a + %d) for every alphabet symbol a: '
+                                      'the look-up for the largest symbol is out of bounds' % (pstr(p)[:80], cmax))
+
+
+# ------------------------------------------------------------------------------------------------ TS-12 (C07)
+def ts12(facts, rep, rule='TS-12'):
+    rep.rule(rule, 'search-tree key: IntervalTree::find prunes the right subtree of a node by the node\'s *start* (everything '
+                   'there starts no earlier), so Node::insert must descend by comparing the new interval\'s start with the '
+                   'node\'s start - alone or as the leading component of a lexicographic key. A descent ordered by anything else '
+                   '(the end, the width) leaves overlapping entries in subtrees that find() skips')
+    b = facts.method('data_structures::interval_tree::avl_interval_tree::Node', 'insert')
+    key = 'Node::insert|descent-ordered-by-start'
+    if b is None:
+        rep.missing(rule, key, 'Node::insert not found')
+        return
+    rep.analysed_body(b)
+
+    def lead(txt):
+        """leading key component of one side of the comparison"""
+        m = re.match(r'tuple\{(.*)\}$', txt)
+        if m:
+            depth, cur = 0, ''
+            for ch in m.group(1):
+                if ch in '([{':
+                    depth += 1
+                elif ch in ')]}':
+                    depth -= 1
+                if ch == ',' and depth == 0:
+                    break
+                cur += ch
+            txt = cur.strip()
+        return txt
+    n = 0
+    bad = None
+    for g in eng_gd.guards(b):
+        c = g['cmp_true']
+        if not c or c[0] not in ('Le', 'Lt', 'Ge', 'Gt') or 'interval' not in c[1] or 'interval' not in c[2]:
+            continue
+        n += 1
+        a, d = lead(c[1]), lead(c[2])
+        sides = {('self.interval' in a), ('self.interval' in d)}
+        if not (a.endswith('.start') and d.endswith('.start') and sides == {True, False}):
+            bad = (g['bb'], c)
+    for bb, t in b.calls():
+        info = call_info(t)
+        if info and info['fn'].rsplit('::', 1)[-1] in ('cmp', 'partial_cmp') and len(t['args']) == 2:
+            xs = [fmt(strip(b.expr_operand(x, inline_user=True))) for x in t['args']]
+            if 'interval' in xs[0] and 'interval' in xs[1]:
+                n += 1
+                a, d = lead(xs[0]), lead(xs[1])
+                if not (a.endswith('.start') and d.endswith('.start') and {('self.interval' in a), ('self.interval' in d)} == {True, False}):
+                    bad = (bb, ('cmp', xs[0], xs[1]))
+    if n == 0:
+        rep.missing(rule, key, 'no comparison of the new interval with the node interval found in Node::insert')
+    elif bad:
+        rep.bad(rule, key, b.loc(bad[0]), 'the descent compares `%s` with `%s`: the tree is not ordered by start, which find() '
+                                          'relies on when it prunes right subtrees' % (bad[1][1][:70], bad[1][2][:70]))
+    else:
+        rep.ok(rule, key, '%s:%s' % (b.file, b.line), 'ordered by interval.start (%d comparison%s)' % (n, '' if n == 1 else 's'))
